@@ -168,6 +168,41 @@ theorem updatePilot_spec (cur tgt : St) (ht : tgt.WF N) :
       exact ⟨⟨f, ht, Or.inl (by omega)⟩, trivial⟩
     exact ⟨_, pilotReplay_chain cur _ hc, pchain_of_chain hc⟩
 
+/-- a final state reported while the pilot handle is still in ANY earlier, non-final state (the
+    notifications in between were lost or are late) is never refused: the gap is replayed, the handle
+    ends in that final state, and it is the last state the callbacks - the task manager's among them -
+    are called with (used by C13: the tasks of the pilot are then failed) -/
+theorem C14_final_delivered (i : Nat) (hi : i < N) (tgt : St) (ht : tgt.isFinal = true) :
+    ∃ cbs, updatePilot N (.nf i) tgt = .ok (tgt, cbs ++ [tgt]) := by
+  have hw : tgt.WF N := by cases tgt <;> simp_all [St.WF, St.isFinal]
+  have h0 : ¬ (St.nf i = tgt) := by intro h; subst h; simp [St.isFinal] at ht
+  have hv : tgt.val N = N := val_final ht
+  unfold updatePilot
+  rw [if_neg h0]
+  unfold pilotProgress
+  have hvi : (St.nf i).val N = i := rfl
+  rw [if_neg (by simp), if_neg (by simp), if_neg (by simp [St.isFinal]), if_neg (by rw [hv, hvi]; omega)]
+  have hnf : (St.nf i).isFinal = false := rfl
+  have ⟨c, l, f⟩ := nfRange_chain (N := N) ((St.nf i).val N + 1) (tgt.val N) (.nf i) hnf rfl (val_le hw)
+  by_cases hfc : tgt.isFC = true
+  · simp only [hfc, if_true]
+    have : (nfRange ((St.nf i).val N + 1) (tgt.val N) ++ [tgt]).drop
+        ((nfRange ((St.nf i).val N + 1) (tgt.val N) ++ [tgt]).length - 1) = [tgt] := by simp
+    rw [this]
+    have hc : Chain N (.nf i) [tgt] := ⟨⟨hnf, hw, Or.inr hfc⟩, trivial⟩
+    exact ⟨[], by rw [pilotReplay_chain _ _ hc]; rfl⟩
+  · have hfc' : tgt.isFC = false := by cases h : tgt.isFC <;> simp_all
+    simp only [hfc', Bool.false_eq_true, if_false]
+    have hc : Chain N (.nf i) (nfRange ((St.nf i).val N + 1) (tgt.val N) ++ [tgt]) := by
+      apply chain_append c
+      exact ⟨⟨f, hw, Or.inl (by have := hvi; rw [hv] at l ⊢; omega)⟩, trivial⟩
+    refine ⟨nfRange ((St.nf i).val N + 1) (tgt.val N), ?_⟩
+    rw [pilotReplay_chain _ _ hc, lastOf_append]
+    rfl
+
+/-- test: a pilot that is still being launched is reported DONE -/
+example : updatePilot N (.nf 1) .done = .ok (.done, [.nf 2, .nf 3, .nf 4, .done]) := by rfl
+
 /-- **C14 (notification part)**: for every stream of notifications for a known
     pilot — duplicates, reordering, gaps, late non-final updates after a final
     one — what PILOT_STATE callbacks see is a chain of `PStep`s from the pilot's
